@@ -552,4 +552,20 @@ def marshalF (fx : Fixed) (p : Pay) : List (String × Val) := marshalW (toWireF 
 def forwardF (fx : Fixed) (cfg : Cfg) (p : Pay) : Option (Option Pay) :=
   if p.md.id.tid = "" then none else some (ingestBatchF fx cfg (marshalF fx p))
 
+
+/-! ## Events queued across requests
+
+Between ingestion and transmission an event sits in the collector or in a transmission batch while
+the node serves further requests.  In the model an event is a value: `QOp.post` queues the result
+of a request under an id, any other request leaves the queue alone. -/
+
+inductive QOp where
+  | post (id : String) (r : Option Pay)     -- a request whose event stays queued under `id` (`none`: nothing queued)
+  | other (r : Option Pay)                  -- any other request, whatever it ingests
+
+def qstep (q : AList String Pay) : QOp → AList String Pay
+  | .post id (some p) => AList.put q id p
+  | .post id none => AList.del q id
+  | .other _ => q
+
 end Refinery.Model.Payload
